@@ -219,6 +219,40 @@ def run(tier, seed, rng):
             failures.append(dict(kind='oracle', sig='data-pack-constructed', what=f"Data pack of a constructed value {val!r} (marker {mk!r}, include_delimiter={incl}): the value followed by the excluded delimiter, byte for byte",
                                  classes=[c for c in csrc.split('class ') if c.startswith(nm + '(')][0].join(['class ', '']), cls=nm, value=f"{nm}(name={val!r}, tail=7)",
                                  observed=str(o), required=want_p))
+    # ---- LONG values: the first occurrence of the marker at / straddling every distance around 64, 128, 256 ... 65536 from the
+    # cursor (block-wise or two-stage searches), a second occurrence later on; any cursor position; with and without a window
+    lmarks = [b'\x00', b'\r\n', b'abc', b'aab', b'\n\n\n\n']
+    lsrc, lcases, lmeta = "", [], []
+    lens = sorted(set(list(range(56, 70)) + [b + d for b in (128, 256, 512, 1024, 4096, 8192, 65536) for d in (-3, -2, -1, 0, 1, 2)]))
+    if tier == 'quick':
+        lens = [L for L in lens if L < 5000]
+    for mi, mk in enumerate(lmarks):
+        for incl in (False, True):
+            for sbl in (None, 0, 70000):
+                nm = f"LV{mi}{'i' if incl else 'x'}{'' if sbl is None else 'w%d' % sbl}"
+                conf = f"    __bisturi__ = {{'search_buffer_length': {sbl}}}\n" if sbl is not None else ""
+                lsrc += f"class {nm}(Packet):\n{conf}    d = Data(until_marker={mk!r}, include_delimiter={incl})\n    t = Int(1)\n"
+                for L in lens:
+                    for fillv in (b'z', mk[:1]):
+                        if fillv == mk[:1] and len(mk) == 1:
+                            continue
+                        for off in (0, 3):
+                            body = (fillv * L) if fillv == b'z' else (b'z' * (L - 1) + fillv)     # ... or a marker prefix right before the marker
+                            if naive_find(body + mk, mk) != L:
+                                continue
+                            raw = b'...'[:off] + body + mk + b'second' + mk + b'\x07'
+                            lcases.append(dict(cls=nm, op='roundtrip', raw=raw.hex(), offset=off)); lmeta.append((nm, mk, incl, L, off, raw))
+    lres = run_impl(os.path.join(VERIF, 'harness', 'impl_pkt.py'), dict(header=decl.HEADER_PY, blocks=[dict(name='longv', src=lsrc)], modname='c06l', cases=lcases))
+    dist['long_value_cases'] = len(lcases)
+    for (nm, mk, incl, L, off, raw), o in zip(lmeta, lres['outcomes']):
+        end = off + L + len(mk)
+        want = dict(d=raw[off:end if incl else off + L].hex(), t=raw[end], end=end + 1, packed=raw[off:end + 1].hex())
+        f = dict(o['ok']['f']) if 'ok' in o else {}
+        got = dict(d=(f.get('d') or {}).get('x'), t=f.get('t'), end=o.get('end'), packed=(o.get('packed') or {}).get('ok')) if 'ok' in o else None
+        if got != want:
+            failures.append(dict(kind='oracle', sig='data-unpack-long', what=f"a value of {L} bytes before the first {mk!r} (cursor {off}): the field must stop at the FIRST occurrence (value of {L} bytes, end {end + 1})",
+                                 classes=[c for c in lsrc.split('class ') if c.startswith(nm + '(')][0].join(['class ', '']), cls=nm, raw=raw.hex(), offset=off,
+                                 observed=(str(got)[:300] if got else str(o)[:300]), required=str({k: (v if not isinstance(v, str) or len(v) < 60 else v[:20] + '...' + v[-30:]) for k, v in want.items()})))
     # ---- regex delimiters whose match depends on context (look-behind, word boundary, anchors), for a field that does NOT start
     # at offset 0: "the first match at or after the cursor" is decided on the bytes from the cursor on, never on what precedes it
     import re as _re
